@@ -392,6 +392,42 @@ def c08_dir_scope(res, pid, rng, tier):
 
 
 
+def c08_volume_scope(res, pid, rng, tier):
+    """a very long run: hundreds of thousands of distinct secrets must receive pairwise distinct replacements (any
+    shortened key - a truncated digest, a bounded table - collides by the birthday bound), and a repeated one its own"""
+    fails = []
+    n = 600000 if tier == "thorough" else 300000
+    tag = "".join(rng.choice("GHJKMNPQRSTUVWXYZ") for _ in range(3))
+    cfg = fa.FaCfg(salt=SALTS[res.seed % len(SALTS)], pwd=True)
+    obj = cfg.build()
+    text = "".join("password %s-Key-%d\n" % (tag, i) for i in range(n)) + "".join("password %s-Key-%d\n" % (tag, i) for i in range(0, n, n // 50))
+    o = io.StringIO()
+    try:
+        with fa.LogCap():
+            obj.anonymize_io(io.StringIO(text), o)
+    except Exception as e:  # noqa
+        return [], [{"kind": "anonymize_io raised in a long run", "exc": repr(e), "salt": cfg.salt, "lines": n}]
+    outs = o.getvalue().split("\n")
+    res.evaluations += n
+    res.nt(("volume", n))
+    first = {}
+    for i in range(n):
+        r_ = outs[i]
+        if r_ in first:
+            fails.append({"kind": "two different secrets receive the same replacement (long run)", "salt": cfg.salt,
+                          "line_a": "password %s-Key-%d" % (tag, first[r_]), "line_b": "password %s-Key-%d" % (tag, i), "replacement": r_,
+                          "run": "the %d lines 'password %s-Key-<k>', k = 0..%d, in this order" % (n, tag, n - 1)})
+            if len(fails) > 3:
+                break
+        else:
+            first[r_] = i
+    for j, i in enumerate(range(0, n, n // 50)):
+        if n + j < len(outs) and outs[n + j] != outs[i] and len(fails) < 6:
+            fails.append({"kind": "a repeated secret receives another replacement (long run)", "salt": cfg.salt,
+                          "line": "password %s-Key-%d" % (tag, i), "first": outs[i], "again": outs[n + j]})
+    return [], fails
+
+
 # ------------------------------------------------------------------ re-encodings and their decoders (C08, C09)
 
 def codec_scope(res, pid, rng, tier):
